@@ -521,6 +521,13 @@ def enum_names(ctx, sentinel=False):
     return z3.And(*conds)
 
 
+def second_engine(ctx):
+    """CrossHair on the flag-name law for SkinParts (second opinion)"""
+    from .common import crosshair_opinion
+    note_key(ctx, 'C20:second_engine')
+    return crosshair_opinion(ctx, 'xcheck/ch_flag_names.py', 240)
+
+
 def instances(tier, seed):
     AF = [0, 8, 16, 24] if tier != 'thorough' else list(range(32))
     out = [
@@ -568,6 +575,10 @@ def instances(tier, seed):
     ]
     if tier == 'thorough':
         out += [
+            Instance('second_engine:crosshair', 'second_engine', {}, W=64,
+                     budget_s=1200,
+                     note='independent engine on the flag-name law; not '
+                          'deciding'),
             Instance('sentinel:position_apply', 'position_apply',
                      {'part': 'xyz', 'sentinel': True}, W=64,
                      expect='violation',
